@@ -63,6 +63,9 @@ RISKY = [
     ["[x](https://e.org){#lnku .c} <https://e.org>{#lnka} [w](wiki:A){#lnkw}"], ["[x](inv:k#alpha){#lnki} [p](path:other.md){#lnkp} [q](project:other.md){#lnkq}"],
     ["# Local", "", "[a](#local){#la} [](#local){#lb} [c](#far-target){#la}"], ["`code`{#cid .c} *em*{#eid} [span]{#sid} ![i](x.png){#iid} $m${#mid}"],
     ["> [x](#far-target){#qlnk}", "", "- [y](#far-target){#llnk}", "", "```{note}", "[z](#far-target){#nlnk}", "```"],
+    # substitutions whose text carries ids, used more than once (every use is a fresh rendering)
+    ["{{ kf }}", "", "{{ kf }}", "", "[^sf]: note"], ["a {{ ks }} b {{ ks }} c", "", "{{ ks }}"], ["{{ kt }}", "", "{{ kt }}", "", "[](#subt)"], ["{{ km }}", "", "{{ km }}"], ["{{ kn }}", "", "{{ kn }}", "", "[](#subname)"],
+    ["x {{ ki }} y {{ ki }}"], ["{{ kfn }}", "", "{{ kfn }}", "", "r[^sfn]"], ["> {{ kf }}", "", "- {{ kf }}", "", "[^sf]: note"],
     # explicit ids whose spelling is not the normalised one (upper case, '_', '.', non-ASCII), used twice
     ["{#Fig_1}", "para", "", "{#Fig_1}", "para2", "", "[a](#Fig_1) [b](#fig-1)"], ["[t]{#Sp_A} [u]{#Sp_A} [v]{#sp-a}"], ["# h {#Head_X}", "", "## g {#Head_X}", "", "[](#Head_X)"], ["![a](i.png){#Im_G}", "", "![b](j.png){#Im_G}"],
     ["{#ÜbEr}", "p1", "", "{#über}", "p2", "", "{#UBER}", "p3"], ["```{note}", ":name: My_Name", "x", "```", "", "```{tip}", ":name: My_Name", "y", "```"], ["(My_Target)=", "p", "", "(my-target)=", "q", "", "(My_Target)=", "r"],
@@ -212,7 +215,8 @@ def make_case(R, i):
     elif k == 1:
         text, kind = risky(R), "risky"
         cfg["enable_extensions"] = list(G.ALL_EXT)
-        cfg["substitutions"] = {"k": "# heading from substitution", "k2": "***"}
+        cfg["substitutions"] = {"k": "# heading from substitution", "k2": "***", "kf": "text[^sf] more", "ks": "[span]{#subid} `c`{#subcode}", "kt": "(subt)=\npara from substitution", "km": "$$x$$ (sublbl)",
+                                "kn": "```{note}\n:name: subname\nx\n```", "ki": "![a](i.png){#subimg}", "kfn": "[^sfn]: defined in a substitution"}
     elif k == 2:
         text, kind = G.soup(R), "soup"
     else:
